@@ -35,6 +35,11 @@ CLAIM = {
 }
 
 
+CLAIM["text"] += (" (R17.7) restore path, disk side: the batch that applies the fetched cloud state (put_batch_unlogged -> put_batch) refuses "
+                  "the *whole* batch as soon as one record is stale or conflicts at its version - the mismatch flag is only ever "
+                  "set, a later unchanged record cannot clear it - and commits / updates the version cache only without a "
+                  "mismatch (same obligations as C16 R16.2).")
+
 def run(ctx):
     ctx.explanation = CLAIM["text"]
     ctx.not_decided = "cryptographic strength; provenance of values across await points of the async read path"
@@ -44,6 +49,7 @@ def run(ctx):
     r174(ctx)
     r175(ctx)
     r176(ctx)
+    r177(ctx)
 
 
 def rpo(fv):
@@ -335,3 +341,11 @@ def r176(ctx):
                "local.get(LAST_WRITER_KEY); a last-writer record with the same version and other content (another signer's, a "
                "flipped or truncated one) is accepted as in sync", where=f"{b.file}:{r['line']}", sample="version_value == local.get(LAST_WRITER_KEY)")
     ctx.floor("R17.6", "non-false returns of is_in_sync", n, 1)
+
+
+def r177(ctx):
+    """a replayed (older) record inside a fetched batch must refuse the batch even when unchanged records follow it: C16 R16.2"""
+    from rules import C16 as _c16
+    from engine import report as _report
+    # backend agreement on batches that repeat a key (memory vs disk) is C16's business, not an authentication question
+    _c16.r162(_report.renamed(ctx, {"R16.2": "R17.7"}, skip=lambda key: "validation-reads-prebatch" in key or key.startswith("memory/")))
